@@ -96,4 +96,77 @@ theorem strset_s_documented (cfg : Cfg) (dest dmax value : Nat) (db : Bos) :
     ReturnsDocumented "strset_s" [] (strset_s cfg dest dmax value db) id :=
   of_Once (strset_s_ev ..) (strset_s_em ..) (by decide)
 
+theorem strnset_s_em (cfg : Cfg) (dest dmax value n : Nat) (db : Bos) : EM [ESNULLP, ESZEROL, ESLEMAX, EOVERFLOW, ESNOSPC] (strnset_s cfg dest dmax value n db) := by
+  unfold strnset_s
+  split
+  · em_walk
+  split
+  · em_walk
+  refine em_chkDmax _ _ _ (by decide) (by decide) ?_
+  em_walk using EM.of_quiet (setLoop_silent _ _ _), EM.of_quiet (slackTail_silent _ _ _)
+theorem strzero_s_em (cfg : Cfg) (dest dmax : Nat) (db : Bos) : EM S4 (strzero_s cfg dest dmax db) := by
+  unfold strzero_s
+  split
+  · em_walk
+  split
+  · em_walk
+  refine em_chkDmax _ _ _ (by decide) (by decide) ?_
+  em_walk using EM.of_quiet (setLoop_silent _ _ _), EM.of_quiet (slackTail_silent _ _ _)
+theorem strtolowercase_s_em (cfg : Cfg) (dest dmax : Nat) (db : Bos) : EM S4 (strtolowercase_s cfg dest dmax db) := by
+  unfold strtolowercase_s
+  split
+  · em_walk
+  split
+  · em_walk
+  refine em_chkDmax _ _ _ (by decide) (by decide) ?_
+  em_walk using EM.of_quiet (caseLoop_silent _ _ _ _ _)
+theorem strtouppercase_s_em (cfg : Cfg) (dest dmax : Nat) (db : Bos) : EM S4 (strtouppercase_s cfg dest dmax db) := by
+  unfold strtouppercase_s
+  split
+  · em_walk
+  split
+  · em_walk
+  refine em_chkDmax _ _ _ (by decide) (by decide) ?_
+  em_walk using EM.of_quiet (caseLoop_silent _ _ _ _ _)
+theorem termScan_em {S : List Nat} (h : ESUNTERM ∈ S) (od om n d : Nat) : EM S (termScan od om n d) := by
+  induction n generalizing d with
+  | zero => unfold termScan; em_walk using EM.of_quiet (Quiet.zeroLoop _ _), EM.handlerS _ h
+  | succ n ih => unfold termScan; em_walk using ih _
+abbrev S5u : List Nat := [ESNULLP, ESZEROL, ESLEMAX, EOVERFLOW, ESUNTERM]
+theorem strljustify_s_em (cfg : Cfg) (dest dmax : Nat) (db : Bos) : EM S5u (strljustify_s cfg dest dmax db) := by
+  unfold strljustify_s
+  split
+  · em_walk
+  split
+  · em_walk
+  refine em_chkDmax _ _ _ (by decide) (by decide) ?_
+  em_walk using termScan_em (by decide) _ _ _ _, EM.of_quiet (skipWs_silent _ _), EM.of_quiet (shiftLoop_silent _ _ _)
+theorem strremovews_s_em (cfg : Cfg) (dest dmax : Nat) (db : Bos) : EM S5u (strremovews_s cfg dest dmax db) := by
+  unfold strremovews_s
+  split
+  · em_walk
+  split
+  · em_walk
+  refine em_chkDmax _ _ _ (by decide) (by decide) ?_
+  em_walk using termScan_em (by decide) _ _ _ _, EM.of_quiet (skipWs_silent _ _), EM.of_quiet (shiftLoop_silent _ _ _), EM.of_quiet (stripTrailing_silent _ _)
+
+/-- strnset_s: every returned code is documented -/
+theorem strnset_s_documented (cfg : Cfg) (dest dmax value n : Nat) (db : Bos) :
+    ReturnsDocumented "strnset_s" [] (strnset_s cfg dest dmax value n db) id := of_Once (strnset_s_ev ..) (strnset_s_em ..) (by decide)
+/-- strzero_s: every returned code is documented -/
+theorem strzero_s_documented (cfg : Cfg) (dest dmax : Nat) (db : Bos) :
+    ReturnsDocumented "strzero_s" [] (strzero_s cfg dest dmax db) id := of_Once (strzero_s_ev ..) (strzero_s_em ..) (by decide)
+/-- strtolowercase_s: every returned code is documented -/
+theorem strtolowercase_s_documented (cfg : Cfg) (dest dmax : Nat) (db : Bos) :
+    ReturnsDocumented "strtolowercase_s" [] (strtolowercase_s cfg dest dmax db) id := of_Once (strtolowercase_s_ev ..) (strtolowercase_s_em ..) (by decide)
+/-- strtouppercase_s: every returned code is documented -/
+theorem strtouppercase_s_documented (cfg : Cfg) (dest dmax : Nat) (db : Bos) :
+    ReturnsDocumented "strtouppercase_s" [] (strtouppercase_s cfg dest dmax db) id := of_Once (strtouppercase_s_ev ..) (strtouppercase_s_em ..) (by decide)
+/-- strljustify_s: every returned code is documented -/
+theorem strljustify_s_documented (cfg : Cfg) (dest dmax : Nat) (db : Bos) :
+    ReturnsDocumented "strljustify_s" [] (strljustify_s cfg dest dmax db) id := of_Once (strljustify_s_ev ..) (strljustify_s_em ..) (by decide)
+/-- strremovews_s: every returned code is documented -/
+theorem strremovews_s_documented (cfg : Cfg) (dest dmax : Nat) (db : Bos) :
+    ReturnsDocumented "strremovews_s" [] (strremovews_s cfg dest dmax db) id := of_Once (strremovews_s_ev ..) (strremovews_s_em ..) (by decide)
+
 end SafeC.Props.C05Docs
